@@ -153,7 +153,36 @@ def t_ctx():
     return [op("cleanup", body=[op("ctx")]), op("ctxlive"), draw(g("Int"), "x", "x"), iff("x", "ge", 100000, [op("fatalf", site=1)])]
 
 
+def t_makemap():
+    # a map built by Make over a tiny key domain: duplicate keys are drawn and rejected
+    return [draw(g("Make", type="mapboolint"), "m", "m"), draw(g("Int8"), "t"), iff("m", "anyge", 1000, [op("fatalf", site=1)])]
+
+
+def t_custom_empty():
+    # a Custom function that draws nothing for n = 0 (a misuse the library answers with an assertion, reproducibly)
+    return [draw(IntRange(0, 3), "n", "n"), op("share", var="n"), draw(g("CustomShared", fn="n"), "c", "c"), iff("n", "ge", 2, [op("fatalf", site=1)])]
+
+
+def t_sm2():
+    # exactly two named actions and no invariant
+    return [op("setvar", var="n", val="0"),
+            op("repeat", actions={"left": [draw(g("Bool"), "b"), op("incvar", var="n")], "right": [draw(g("Byte"), "c", "c"), iff("c", "ge", 200, [op("fatalf", site=1)])]}),
+            draw(g("Int8"), "after")]
+
+
+def t_cleanup_skip_errorf():
+    return [draw(g("Int"), "x", "x"), op("cleanup", body=[iff("x", "ge", 1000, [op("errorf", text="from first cleanup")])]),
+            op("cleanup", body=[iff("x", "ge", 1000, [op("skip")])])]
+
+
+def t_regexp_retry():
+    # regexps whose expansion can fail the final match, so that whole attempts are rejected and retried
+    return [draw(g("StringMatching", expr="[a-c]\\b."), "r", "r"), draw(g("SliceOfBytesMatching", expr="^x?\\bfoo\\b|[a-z]$"), "rb"), draw(g("Int8"), "t", "t"),
+            iff("t", "ge", 50, [op("fatalf", site=1)])]
+
+
 TEMPLATES = {
+    "makemap": t_makemap, "custom_empty": t_custom_empty, "sm2": t_sm2, "cleanup_skip_errorf": t_cleanup_skip_errorf, "regexp_retry": t_regexp_retry,
     "ctx": t_ctx,
     "threshold": lambda: t_threshold(), "threshold_u8": lambda: t_threshold("Uint8", 200), "threshold_neg": lambda: t_threshold("Int32", -5000, cmp="le"),
     "distinct": t_distinct, "map": t_map, "string": t_string, "filter": t_filter, "sampled": t_sampled,
@@ -181,7 +210,7 @@ def c01(tier, seed):
     out = []
     # rejection-based generators with minimization cut at once: the reported case is the pruned original,
     # which must replay (forced stops, duplicate keys, over-long strings, skipped actions)
-    for tn in ("distinct", "map", "string", "sm", "custom", "filter"):
+    for tn in ("distinct", "map", "string", "sm", "custom", "filter", "makemap", "regexp_retry", "sm2"):
         for sd in seeds(rng, 14 if tier == "quick" else 150):
             out.append(scenario("c01-pruned-%s-%d-%d" % (tn, sd, len(out)), {"body": TEMPLATES[tn]()},
                                 {"checks": 100, "seed": sd, "nofailfile": "true", "shrinktime": "0s"}, tag={"template": tn, "shrink": "0s"}))
@@ -327,6 +356,7 @@ BEHAVIOURS = {
     "CS": [op("cleanup", body=[op("skip")]), draw(g("Bool"), "p")],              # the last cleanup to run skips: an invalid test case
     "CN": [op("cleanup", body=[op("errorf", text="cn")]), op("cleanupnil")],    # a nil cleanup registered after a failing one
     "CNP": [op("cleanup", body=[op("ctx")]), op("cleanupnil"), draw(g("Bool"), "p")],
+    "CSE": [op("cleanup", body=[op("errorf", text="first registered")]), op("cleanup", body=[op("skip")])],   # the skipping cleanup runs first; the other one must still run now
     "AL": [draw(g("Int8"), ""), draw(g("Bool"), "")],                           # unlabelled draws (draw bookkeeping)
 }
 
@@ -343,7 +373,7 @@ def c11(tier, seed):
         seqs = short + rng.sample(longer, 260)
     extra = [("XC", "P"), ("XC", "XC", "P"), ("S", "XC", "P"), ("AL", "AL", "P"), ("AL", "S", "AL"), ("ES", "AL", "AL"), ("XC", "AL", "XC"),
              ("CS", "XC", "P"), ("CS", "CS", "XC"), ("XC", "CS", "XC", "P"), ("CN", "P"), ("CNP", "P", "P"), ("CNP", "CN", "P"), ("P", "CN", "P", "P"),
-             ("CS", "P", "XC"), ("CNP", "XC", "P")]
+             ("CS", "P", "XC"), ("CNP", "XC", "P"), ("CSE", "P"), ("CSE", "P", "P"), ("P", "CSE", "XC"), ("CSE", "CSE", "P")]
     out = []
     for i, sq in enumerate(list(seqs) + extra):
         cases = {str(j + 1): BEHAVIOURS[b] for j, b in enumerate(sq)}
@@ -458,6 +488,11 @@ def c07(tier, seed):
                             {"checks": rng.choice([5, 100]), "seed": sd, "nofailfile": "true"},
                             runs=[{}, {"expect": "same_run", "warm": rng.sample(["strings", "labels", "check", "failcheck"], 2)}],
                             tag={"template": tn}))
+    # (e) a failure replayed from a fail file: if its message prints a seed, that seed must reproduce the (minimized) case it shows
+    for sd in seeds(rng, max(3, n // 2)):
+        tn = rng.choice(["threshold", "distinct", "map", "multisite"])
+        out.append(scenario("c07-ffseed-%s-%d" % (tn, sd), {"body": TEMPLATES[tn]()}, {"checks": 100, "seed": sd},
+                            runs=[{}, {"flags": {"seed": "0"}}, {"seedPrev": True, "expect": "seed_prev", "flags": {"seed": "0"}}], tag={"template": tn, "ffseed": True}))
     # (d) the same fixed seed in a new process: identical run
     for sd in seeds(rng, max(3, n // 2)):
         tn = rng.choice(sorted(TEMPLATES))
@@ -474,10 +509,11 @@ def c05(tier, seed):
     rng = random.Random(seed)
     out = []
     n = 12 if tier == "quick" else 300
-    tmpl = ["multisite", "errorf_then_panic", "threshold", "distinct", "map", "filter", "sm", "string", "custom", "sampled", "nonfatal"]
+    tmpl = ["multisite", "errorf_then_panic", "threshold", "distinct", "map", "filter", "sm", "string", "custom", "sampled", "nonfatal",
+            "makemap", "custom_empty", "regexp_retry", "sm2", "cleanup_skip_errorf"]
     for i in range(n):
         for tn in tmpl:
-            if tier == "quick" and i >= 4 and tn not in ("multisite", "errorf_then_panic", "distinct"):
+            if tier == "quick" and i >= 4 and tn not in ("multisite", "errorf_then_panic", "distinct", "makemap", "custom_empty"):
                 continue
             prop = {"body": TEMPLATES[tn]()}
             st = rng.choice(["0s", "full", "full", "cut"])
@@ -825,6 +861,9 @@ def c04_bodies():
         "makemap": [draw(g("Make", type="map"), "mm"), draw(g("Int8"), "t")],
         "makestruct": [draw(g("Make", type="struct"), "ms"), draw(g("Make", type="ptr"), "mp")],
         "regexp": [draw(g("StringMatching", expr="[a-c]{2,4}x?|\\d+"), "r"), draw(g("SliceOfBytesMatching", expr="(?i)ab*c"), "rb")],
+        "regexp_retry": [draw(g("StringMatching", expr="[a-c]\\b."), "r"), draw(g("SliceOfBytesMatching", expr="^x?\\bfoo\\b|[a-z]$"), "rb"), draw(g("Int8"), "t")],
+        "sm2": [op("repeat", actions={"left": [draw(g("Bool"), "b")], "right": [draw(g("Byte"), "c")]}), draw(g("Int8"), "after")],
+        "makemapbool": [draw(g("Make", type="mapboolint"), "mb"), draw(g("Make", type="mapbyteint"), "mi"), draw(g("Int8"), "t")],
         "floats": [draw(g("Float64"), "f"), draw(g("Float32Range", min="-1", max="1"), "g"), draw(g("Float64Range", min="0", max="inf"), "h")],
         "perm": [draw(g("Permutation", items=["1", "2", "3", "4"]), "p"), draw(g("OneOf", gens=[g("Int8"), IntRange(5, 6)]), "o"), draw(g("Ptr", elem=g("Int"), allowNil=True), "q")],
         "sm": [op("setvar", var="n", val="0"),
